@@ -32,7 +32,9 @@ ALPHABET = ["1", "m", "Å", "ₐ", "μ", ".", "-", "+", "e", "^", "²", "⁻", "
 
 # a wider alphabet with the end points of every character class of both terminal sets; used
 # for shorter strings
-WIDE = ALPHABET + ["9", "0", "⁹", "⁰", "(", ")", "°", "☉", "ₜ", "ω", "Α", "A", "Z", "a", "z", "*", "E", "%", "\t"]
+WIDE = ALPHABET + ["9", "0", "⁹", "⁰", "(", ")", "°", "☉", "ₜ", "ω", "Α", "A", "Z", "a", "z", "*", "E", "%", "\t",
+                   # blanks: every member of WS, and characters str.isspace() accepts but WS does not
+                   "\n", "\r", "\f", "\x0b", "\x1f", "\x85", "\u00a0", "\u2009", "\u3000"]
 
 _P = {}
 
@@ -61,7 +63,12 @@ def outcome(p, err, text, start):
         t = p.parse(text, start=start)
     except err as e:
         return ("reject", type(e).__name__)
-    return ("accept", tree_sig(t))
+    except Exception as e:  # noqa: a parser built WITHOUT a transformer has nothing that could raise anything else
+        return ("reject", "escaped " + type(e).__name__)
+    try:
+        return ("accept", tree_sig(t))
+    except Exception as e:  # noqa: not a tree at all (a transformer leaked into the plain parser)
+        return ("accept", ("not a parse tree", type(t).__name__, type(e).__name__))
 
 
 def compare(text, start):
